@@ -75,6 +75,38 @@ def conf_name(conf):
                                 '' if d['checkLatency'] else '-nl', ('-' + flags) if flags else '')
 
 
+class _MiniCtx:
+    """what Family.model needs of a check context, for a worker process"""
+    tlc = common.Ctx.tlc
+    tlc_ok = common.Ctx.tlc_ok
+
+    def __init__(self, scratch, seed):
+        os.makedirs(scratch, exist_ok=True)
+        self.scratch = scratch
+        self.seed = seed
+        self._tlcn = 0
+        self.notes = []
+
+
+def _model_job(args):
+    """M + G for one configuration in a worker process (TLC, dot parsing and tour construction are
+    independent per configuration; the Python graph code is single threaded)"""
+    pid, family, props, conf, idx, seed, scratch, maxlen, budget, cover = args
+    mini = _MiniCtx(os.path.join(scratch, 'mg%d' % idx), seed)
+    fam = Family(mini, pid, family, props)
+    fam.confs = [None] * idx           # the tour generator is seeded with the configuration's position
+    import time as _t
+    t0 = _t.time()
+    g, kinds = fam.model(conf, maxlen=maxlen, switch_budget=budget, cover=cover, workers=4)
+    for s_ in fam.scripts:
+        s_['id'] = '%d:%s' % (idx, s_['id'])
+    import shutil
+    shutil.rmtree(mini.scratch, ignore_errors=True)
+    return {'scripts': fam.scripts, 'states': fam.states, 'transitions': fam.transitions, 'graph_edges': fam.graph_edges,
+            'edges_covered': fam.edges_covered, 'pairs_cov': fam.pairs_cov, 'pairs_tot': fam.pairs_tot, 'name': fam.confs[-1],
+            'kinds': sorted(kinds), 'notes': mini.notes, 'secs': _t.time() - t0, 'nstates': fam.states}
+
+
 class Family:
     def __init__(self, ctx, pid, family, props):
         self.ctx = ctx
@@ -90,11 +122,11 @@ class Family:
         self.pairs_tot = 0
         self.confs = []
 
-    def model(self, conf, maxlen=30, switch_budget=0, cover='class', timeout=900):
+    def model(self, conf, maxlen=30, switch_budget=0, cover='class', timeout=900, workers=16):
         """M + G for one configuration; appends scripts"""
         ctx = self.ctx
         name = conf_name(conf)
-        r = ctx.tlc('Session.tla', 'mc.cfg', workers=16, files={'mc.cfg': mk_cfg(self.family, conf, self.props)},
+        r = ctx.tlc('Session.tla', 'mc.cfg', workers=workers, files={'mc.cfg': mk_cfg(self.family, conf, self.props)},
                     extra=['-dump', 'dot,actionlabels', 'g.dot'], timeout=timeout)
         ctx.tlc_ok(r, 'Session M %s/%s' % (self.family, name))
         self.states += r['distinct']
@@ -363,14 +395,29 @@ def standard_run(ctx, pid, family, props, confs, quick_budget, thorough_budget, 
     fam = Family(ctx, pid, family, props)
     kinds = set()
     t0 = time.time()
-    for conf in confs:
+    jobs = []
+    timing = []
+    for idx, conf in enumerate(confs):
         conf = dict(conf)
         for k, v in ((quick_bounds if quick else thorough_bounds) or ({} if quick else {'maxOut': 4})).items():
             conf.setdefault(k, v)
-        g, k = fam.model(conf, maxlen=maxlen, switch_budget=(quick_budget if quick else thorough_budget),
-                         cover='class' if quick else 'edges')
-        kinds |= k
-    ctx.notes.append('M+G %.1fs, %d scripts, %d steps' % (time.time() - t0, len(fam.scripts), sum(len(s['steps']) for s in fam.scripts)))
+        jobs.append((pid, family, props, conf, idx, ctx.seed, ctx.scratch, maxlen, quick_budget if quick else thorough_budget,
+                     'class' if quick else 'edges'))
+    from concurrent.futures import ProcessPoolExecutor
+    with ProcessPoolExecutor(max_workers=min(5 if quick else 3, len(jobs))) as ex:
+        for res in ex.map(_model_job, jobs):
+            fam.scripts += res['scripts']
+            fam.states += res['states']
+            fam.transitions += res['transitions']
+            fam.graph_edges += res['graph_edges']
+            fam.edges_covered += res['edges_covered']
+            fam.pairs_cov += res['pairs_cov']
+            fam.pairs_tot += res['pairs_tot']
+            fam.confs.append(res['name'])
+            kinds |= set(res['kinds'])
+            ctx.notes += res['notes']
+            timing.append('%s %.0fs/%d' % (res['name'], res['secs'], res['nstates']))
+    ctx.notes.append('M+G %.1fs, %d scripts, %d steps (%s)' % (time.time() - t0, len(fam.scripts), sum(len(s['steps']) for s in fam.scripts), ', '.join(timing)))
     if extra_scripts:
         extra_scripts(fam)
     stores = stores or ['memory']
